@@ -22,7 +22,7 @@ def run(ctx, prop):
         vlib.write_ndjson(vec, r.vec)
         args += ["--vectors2", vec]
         ctx.cov["vectors_exported"] = len(r.vec)
-        mine = ("cut-not-matched",)
+        mine = ("cut-not-matched", "pattern-text-altered")
     rec = ctx.path("match-records.ndjson")
     summ = vlib.agv_ok(ctx, args + ["--out", rec])
     n, fails = vlib.validate_trace(ctx, "trace/Trace_Match.tla", "trace/Trace_Match.cfg", rec, timeout=3000)
